@@ -23,8 +23,39 @@
     arrangement of its own measurements ([is_sample_of], Model/SampleSort.v),
     all variants have the same cells with identical contents, and the binary's
     text and csv bytes are the same for all variants and GOMAXPROCS settings.
-    Model: [sort_go] (sort.Float64s: NaN sorts first). *)
-From Perf Require Import Base.Bytes Base.Sx Base.B64 Base.SxF Model.BenchTab Model.Render Model.SampleSort.
+    Model: [sort_go] (sort.Float64s: NaN sorts first).
+
+    A fourth case kind (tag 9, "perm"; harness/cmd/gen/c15perm.go): one input
+    run as given (A) and with the benchmark lines of every configuration block
+    permuted (B).  Per run: the requested order of every field of the table /
+    row / column projection, the stream of projected measurements in input
+    order, the tables with their rows and columns in output order, every cell.
+    Specification (Model/ArrangeSpec.v, declarative):
+    - the arrangement of tables, rows and columns of A and of B is the one the
+      stream and the requested orders determine ([arrangement_spec_ok]);
+    - the cells are those of the stream, and a cell is compared with exactly the
+      cell of its row in the first column of its table ([base_col]);
+    - A and B have the same cells and EVERY field of every cell is the same,
+      the comparison included (P, N1, N2, alpha, the baseline sample, and
+      whether there is a comparison at all); so is every cell of the summary
+      row (the geomean of a column, bit for bit; its ratio to the first column
+      and its warnings).  The geomean clause follows the REPAIRED code
+      (hooks/fix_c15_geomean_row_order.diff: the values are sorted before the
+      order-sensitive running mean): unchanged, a permutation that reorders
+      the rows changes the last digits of the geomean printed by -format csv.
+    The last clause fails on unchanged golang/perf when the permutation changes
+    which column is observed first in a table whose column key has no explicit
+    order (documented behaviour; known finding C15_perm_changes_baseline).
+    [known_ok_p] is the same predicate with the comparison of the cells of
+    exactly those tables whose first column (by the specification) differs
+    between A and B left open; everything else - samples, summaries, warnings,
+    the arrangement, which baseline each run uses - is still demanded.
+    Model: [arrangement_model] (order maps + Model/Sort.v's [val_less]).
+
+    Repeated runs: every kind demands a minimum number of runs compared byte
+    for byte ([min_runs]; 2 for the in-process sequence: the stand-alone run and
+    the run inside the sequence). *)
+From Perf Require Import Base.Bytes Base.Sx Base.B64 Base.SxF Model.BenchTab Model.Render Model.SampleSort Model.ArrangeSpec.
 From Perf Require Corr.RunC14 Corr.RunC16.
 
 Record cellobs := mkCO {
@@ -59,13 +90,13 @@ Definition fl_same := list_eqb b64_same.
 Definition cell_same (x y : cellobs) : bool :=
   beq (co_key x) (co_key y) && fl_same (co_sample x) (co_sample y)
   && b64_same (co_centre x) (co_centre y) && b64_same (co_lo x) (co_lo y) && b64_same (co_hi x) (co_hi y)
-  (* the comparison is against the first column in first-observation order, which
-     permuting lines may legitimately change when columns are keyed by sub-name
-     keys: compare it only when both runs compare against the same baseline sample *)
+  (* "never the content of any cell": the comparison too - same baseline sample,
+     same P, N1, N2, and a comparison in both runs or in neither *)
   && (match co_cmp x, co_cmp y with
       | Some (p, a, b, s), Some (p', a', b', s') =>
-          if fl_same s s' then b64_same p p' && (a =? a')%N && (b =? b')%N else true
-      | _, _ => true end)
+          fl_same s s' && b64_same p p' && (a =? a')%N && (b =? b')%N
+      | None, None => true
+      | _, _ => false end)
   && list_eqb beq (co_warn x) (co_warn y).
 
 (* both lists arrive sorted by key; labels are unique per cell *)
@@ -76,7 +107,12 @@ Fixpoint all2 (a b : list cellobs) : bool :=
   | _, _ => false
   end.
 
-Definition prop_ok (c : case) : bool := k_identical c && k_race_ok c && all2 (k_a c) (k_b c).
+(** repeated runs: at least this many runs of the binary were compared byte for byte *)
+Definition min_runs : N := 8.
+Definition min_runs_inproc : N := 2.
+(* this shape is only emitted for the in-process sequence (no cells) *)
+Definition prop_ok (c : case) : bool :=
+  k_identical c && k_race_ok c && all2 (k_a c) (k_b c) && (min_runs_inproc <=? k_runs c)%N.
 
 (** * vary-warnings *)
 Record wtab := mkWT { wt_id : N; wt_rows : list N; wt_cols : list N; wt_key : list bytes; wt_abs : rtable }.
@@ -161,7 +197,7 @@ Section Vary.
     let ts := build (w_meas c) in
     forallb shape_ok (w_tabs c) && forallb (cell_warn_matches (model_vary ts)) (w_tabs c).
   Definition prop_ok_w : bool :=
-    w_identical c && w_race_ok c && forallb shape_ok (w_tabs c) && rendering_matches spec_vary.
+    w_identical c && w_race_ok c && (min_runs <=? w_runs c)%N && forallb shape_ok (w_tabs c) && rendering_matches spec_vary.
 End Vary.
 
 (** * NaN / Inf measurements, permuted lines *)
@@ -197,7 +233,7 @@ Fixpoint all2n (a b : list ncell) : bool :=
   end.
 
 Definition prop_ok_n (c : ncase) : bool :=
-  n_identical c && n_race_ok c
+  n_identical c && n_race_ok c && (min_runs <=? n_runs c)%N
   && match n_vars c with
      | [] => false
      | v0 :: rest =>
@@ -205,8 +241,187 @@ Definition prop_ok_n (c : ncase) : bool :=
      end.
 Definition corr_ok_n (c : ncase) : bool := forallb (forallb ncell_model_ok) (n_vars c).
 
+
+(** * permuted lines: arrangement and cells (kind 9) *)
+Record pcell := mkPC {
+  pc_t : key; pc_r : key; pc_c : key; pc_sample : list b64; pc_centre : b64; pc_lo : b64; pc_hi : b64;
+  pc_cmp : option (b64 * N * N * b64 * list b64);      (* P, N1, N2, alpha, baseline sample *)
+  pc_warn : list bytes }.
+(** a cell of the summary row ("geomean") *)
+Record psum := mkPS {
+  ps_t : key; ps_c : key; ps_has : bool; ps_val : b64; ps_has_ratio : bool; ps_ratio : b64; ps_warn : list bytes }.
+Record prun := mkPR {
+  pr_st : bool; pr_sr : bool; pr_sc : bool;             (* per dimension: all fields exist from the first result on *)
+  pr_ft : list ford; pr_fr : list ford; pr_fc : list ford;
+  pr_stream : list entry; pr_tabs : list otable; pr_cells : list pcell; pr_sums : list psum }.
+Record pcase := mkPCase {
+  p_identical : bool; p_race_ok : bool; p_runs : N; p_race_runs : N; p_a : prun; p_b : prun }.
+
+Definition as_key := as_list as_b.
+Definition as_ford (s : sx) : option ford :=
+  match s with
+  | SL [_; k; fixed; num] =>
+      do k <- as_N k; do fixed <- as_list as_b fixed; do num <- as_list (as_pair as_b (as_opt as_f64)) num;
+      match k with
+      | 0%N => Some FFirst
+      | 1%N => Some FAlpha
+      | 2%N => Some (FFixed fixed)
+      | 3%N => Some (FNum num)
+      | _ => None
+      end
+  | _ => None
+  end.
+Definition as_pcell (s : sx) : option pcell :=
+  match s with
+  | SL [t; r; c; smp; ce; lo; hi; cmp; w] =>
+      do t <- as_key t; do r <- as_key r; do c <- as_key c;
+      do smp <- as_list as_f64 smp; do ce <- as_f64 ce; do lo <- as_f64 lo; do hi <- as_f64 hi;
+      do cmp <- (match cmp with
+                 | SL [] => Some None
+                 | SL [p; n1; n2; a; bs] =>
+                     do p <- as_f64 p; do n1 <- as_N n1; do n2 <- as_N n2; do a <- as_f64 a; do bs <- as_list as_f64 bs;
+                     Some (Some (p, n1, n2, a, bs))
+                 | _ => None end);
+      do w <- as_list as_b w;
+      Some (mkPC t r c smp ce lo hi cmp w)
+  | _ => None
+  end.
+Definition as_psum (s : sx) : option psum :=
+  match s with
+  | SL [t; c; h; v; hr; r; w] =>
+      do t <- as_key t; do c <- as_key c; do h <- as_bool h; do v <- as_f64 v;
+      do hr <- as_bool hr; do r <- as_f64 r; do w <- as_list as_b w;
+      Some (mkPS t c h v hr r w)
+  | _ => None
+  end.
+Definition as_prun (s : sx) : option prun :=
+  match s with
+  | SL [SL [st; sr; sc]; SL [ft; fr; fc]; stream; tabs; cells; sums] =>
+      do st <- as_bool st; do sr <- as_bool sr; do sc <- as_bool sc;
+      do ft <- as_list as_ford ft; do fr <- as_list as_ford fr; do fc <- as_list as_ford fc;
+      do stream <- as_list (as_triple as_key as_key as_key) stream;
+      do tabs <- as_list (as_triple as_key (as_list as_key) (as_list as_key)) tabs;
+      do cells <- as_list as_pcell cells; do sums <- as_list as_psum sums;
+      Some (mkPR st sr sc ft fr fc stream tabs cells sums)
+  | _ => None
+  end.
+Definition decode_p (s : sx) : option pcase :=
+  match s with
+  | SL [SZ 9; i; r; n; nr; a; b] =>
+      do i <- as_bool i; do r <- as_bool r; do n <- as_N n; do nr <- as_N nr;
+      do a <- as_prun a; do b <- as_prun b;
+      Some (mkPCase i r n nr a b)
+  | _ => None
+  end.
+
+Definition otab_eqb (x y : otable) : bool :=
+  let '(t, rows, cols) := x in let '(t', rows', cols') := y in
+  key_eqb t t' && list_eqb key_eqb rows rows' && list_eqb key_eqb cols cols'.
+
+Section Perm.
+  (** the arrangement of one run, judged per dimension whose fields are static
+      (sub-fields of .config that appear only later in the input are the one
+      thing the stream of final key values does not determine; the harness says
+      so per dimension from the keys: a .config sub-field with an empty value) *)
+  Definition arr_ok (arr : list ford -> list key -> list key -> list key -> bool) (r : prun) : bool :=
+    let s := pr_stream r in
+    (if pr_st r then arr (pr_ft r) (map e_t s) (map e_t s) (map (fun o => fst (fst o)) (pr_tabs r)) else true)
+    && forallb (fun o => let '(t, rows, cols) := o in
+                  (if pr_sr r then arr (pr_fr r) (map e_r s) (map e_r (in_table t s)) rows else true)
+                  && (if pr_sc r then arr (pr_fc r) (map e_c s) (map e_c (in_table t s)) cols else true))
+               (pr_tabs r).
+  Definition arr_spec_ok : prun -> bool := arr_ok arranged.
+  Definition arr_model_ok : prun -> bool :=
+    arr_ok (fun fs ks members out => list_eqb key_eqb (model_arrange fs ks members) out).
+
+  (** the first column of a table: by the specification where the column fields
+      are static, else the one printed *)
+  Definition fcol (r : prun) (t : key) : option key :=
+    if pr_sc r then first_col (pr_fc r) (pr_stream r) t
+    else match find (fun o => key_eqb (fst (fst o)) t) (pr_tabs r) with
+         | Some (_, _, c :: _) => Some c
+         | _ => None
+         end.
+  Definition opt_key_eqb (a b : option key) : bool :=
+    match a, b with Some x, Some y => key_eqb x y | None, None => true | _, _ => false end.
+
+  Definition find_cell (r : prun) (t rw c : key) : option pcell :=
+    find (fun x => key_eqb (pc_t x) t && key_eqb (pc_r x) rw && key_eqb (pc_c x) c) (pr_cells r).
+
+  (** the cells are those of the stream; every printed table/row/column holds a
+      measurement; each cell is compared with the cell the specification names *)
+  Definition cells_ok (r : prun) : bool :=
+    forallb (fun x => has_cell (pr_stream r) (pc_t x) (pc_r x) (pc_c x)) (pr_cells r)
+    && forallb (fun e => match find_cell r (e_t e) (e_r e) (e_c e) with Some _ => true | None => false end) (pr_stream r)
+    && forallb (fun x =>
+         let want := match fcol r (pc_t x) with
+                     | Some b => if key_eqb b (pc_c x) then None
+                                 else option_map pc_sample (find_cell r (pc_t x) (pc_r x) b)
+                     | None => None
+                     end in
+         match want, pc_cmp x with
+         | None, None => true
+         | Some bs, Some (_, _, _, _, bs') => fl_same bs bs'
+         | _, _ => false
+         end) (pr_cells r).
+
+  Definition cmp_same (x y : pcell) : bool :=
+    match pc_cmp x, pc_cmp y with
+    | Some (p, a, b, al, s), Some (p', a', b', al', s') =>
+        fl_same s s' && b64_same p p' && (a =? a')%N && (b =? b')%N && b64_same al al'
+    | None, None => true
+    | _, _ => false
+    end.
+  (** [relax]: the recorded deviation - the comparison of the cells of a table
+      whose first column differs between the two runs is left open *)
+  Definition pcell_same (relax : bool) (a b : prun) (x y : pcell) : bool :=
+    key_eqb (pc_t x) (pc_t y) && key_eqb (pc_r x) (pc_r y) && key_eqb (pc_c x) (pc_c y)
+    && fl_same (pc_sample x) (pc_sample y)
+    && b64_same (pc_centre x) (pc_centre y) && b64_same (pc_lo x) (pc_lo y) && b64_same (pc_hi x) (pc_hi y)
+    && list_eqb beq (pc_warn x) (pc_warn y)
+    && (cmp_same x y || (relax && negb (opt_key_eqb (fcol a (pc_t x)) (fcol b (pc_t x))))).
+  (** the summary row: the geomean of a column is a cell too; its ratio to the
+      first column and the warnings about the baseline are comparison fields *)
+  Definition is_sumwarn (w : bytes) : bool := has_prefix w (bs "summaries must be").
+  Definition psum_same (relax : bool) (a b : prun) (x y : psum) : bool :=
+    key_eqb (ps_t x) (ps_t y) && key_eqb (ps_c x) (ps_c y)
+    && Bool.eqb (ps_has x) (ps_has y) && (if ps_has x then b64_same (ps_val x) (ps_val y) else true)
+    && list_eqb beq (filter is_sumwarn (ps_warn x)) (filter is_sumwarn (ps_warn y))
+    && ((Bool.eqb (ps_has_ratio x) (ps_has_ratio y)
+         && (if ps_has_ratio x then b64_same (ps_ratio x) (ps_ratio y) else true)
+         && list_eqb beq (ps_warn x) (ps_warn y))
+        || (relax && negb (opt_key_eqb (fcol a (ps_t x)) (fcol b (ps_t x))))).
+  Fixpoint all2s (f : psum -> psum -> bool) (a b : list psum) : bool :=
+    match a, b with
+    | [], [] => true
+    | x :: a', y :: b' => f x y && all2s f a' b'
+    | _, _ => false
+    end.
+  Fixpoint all2p (f : pcell -> pcell -> bool) (a b : list pcell) : bool :=
+    match a, b with
+    | [], [] => true
+    | x :: a', y :: b' => f x y && all2p f a' b'
+    | _, _ => false
+    end.
+
+  Definition judge_p (relax : bool) (c : pcase) : bool :=
+    p_identical c && p_race_ok c && (min_runs <=? p_runs c)%N
+    && arr_spec_ok (p_a c) && arr_spec_ok (p_b c)
+    && cells_ok (p_a c) && cells_ok (p_b c)
+    && all2p (pcell_same relax (p_a c) (p_b c)) (pr_cells (p_a c)) (pr_cells (p_b c))
+    && all2s (psum_same relax (p_a c) (p_b c)) (pr_sums (p_a c)) (pr_sums (p_b c)).
+  Definition prop_ok_p : pcase -> bool := judge_p false.
+  Definition known_ok_p : pcase -> bool := judge_p true.
+  Definition corr_ok_p (c : pcase) : bool := arr_model_ok (p_a c) && arr_model_ok (p_b c).
+End Perm.
+
 Definition run_case (s : sx) : N :=
   match s with
+  | SL (SZ 9 :: _) =>
+      match decode_p s with
+      | Some c => code_of3 (corr_ok_p c) (prop_ok_p c) (known_ok_p c)
+      | None => code_undecodable
+      end
   | SL (SZ 8 :: _) =>
       match decode_n s with
       | Some c => code_of (corr_ok_n c) (prop_ok_n c)
